@@ -295,3 +295,121 @@ def enclosing_loops(fn: FunctionInfo, node: ast.AST) -> T.List[ast.AST]:
 
     rec(fn.node, [])
     return path
+
+
+# --------------------------------------------------------------------------- wiring
+def check_passthrough(ctx, rule: str, caller_fq: str, callee_fq: str, expected: T.Dict[str, T.Any],
+                      floor: int = 1, what_prefix: str = "") -> int:
+    """At every call of callee in caller, parameter p must receive the expression whose
+    (alias-resolved) text is expected[p] (a string, or a predicate on (fn, expr))."""
+    prog: Program = ctx.prog
+    caller = prog.function(caller_fq)
+    callee = prog.function(callee_fq)
+    ctx.visit(caller_fq, callee_fq)
+    calls = find_calls(prog, caller, callee_fq)
+    if len(calls) < floor:
+        raise AnalysisError(f"{ctx.prop}/{rule}: {caller_fq} calls {callee_fq} {len(calls)} time(s), expected >= {floor}")
+    for call in calls:
+        for p, exp in expected.items():
+            arg = call_arg(call, callee, p)
+            if arg is None and p in callee.defaults:
+                arg_txt = "<default " + unparse(callee.defaults[p]) + ">"
+                arg_res: T.Optional[ast.AST] = callee.defaults[p]
+            elif arg is None:
+                arg_txt, arg_res = "<missing>", None
+            else:
+                arg_res = resolve_alias(caller, arg)
+                arg_txt = unparse(arg)
+            if callable(exp):
+                good = arg_res is not None and bool(exp(caller, arg_res))
+                exp_txt = getattr(exp, "__doc__", None) or "predicate"
+            else:
+                good = arg_res is not None and (unparse(arg) == exp or unparse(arg_res) == exp)
+                exp_txt = exp
+            ctx.check(rule, good,
+                      f"{what_prefix}{caller_fq} L{call.lineno}: {callee.qualname}({p}=...) receives `{exp_txt}`",
+                      f"{caller_fq} -> {callee_fq}: parameter `{p}` is not wired to `{exp_txt}`",
+                      f"call at L{call.lineno} passes `{arg_txt}` for `{p}`, expected `{exp_txt}`",
+                      loc=caller.loc(call))
+    return len(calls)
+
+
+def tainted_names(fn: FunctionInfo, sources: T.Set[str], sanitisers: T.Set[str] = frozenset()) -> T.Set[str]:
+    """Locals of fn that (transitively, flow-insensitively) depend on a source name.
+    A value wrapped in a sanitiser call (by dotted text) is clean."""
+    tainted = set(sources)
+    changed = True
+
+    def expr_tainted(e: ast.AST) -> bool:
+        if isinstance(e, ast.Call) and unparse(e.func) in sanitisers:
+            return False
+        if isinstance(e, ast.Name):
+            return e.id in tainted
+        return any(expr_tainted(c) for c in ast.iter_child_nodes(e))
+
+    while changed:
+        changed = False
+        for n in walk_no_nested(fn.node):
+            tgts: T.List[ast.AST] = []
+            val: T.Optional[ast.AST] = None
+            if isinstance(n, ast.Assign):
+                tgts, val = n.targets, n.value
+            elif isinstance(n, ast.AnnAssign) and n.value is not None:
+                tgts, val = [n.target], n.value
+            elif isinstance(n, ast.AugAssign):
+                tgts, val = [n.target], n.value
+            elif isinstance(n, (ast.For, ast.AsyncFor)):
+                tgts, val = [n.target], n.iter
+            elif isinstance(n, ast.comprehension):
+                tgts, val = [n.target], n.iter
+            elif isinstance(n, ast.NamedExpr):
+                tgts, val = [n.target], n.value
+            if val is None or not expr_tainted(val):
+                continue
+            for t in tgts:
+                for x in ast.walk(t):
+                    if isinstance(x, ast.Name) and x.id not in tainted:
+                        tainted.add(x.id)
+                        changed = True
+    return tainted
+
+
+def expr_tainted(e: ast.AST, tainted: T.Set[str], sanitisers: T.Set[str] = frozenset()) -> bool:
+    if isinstance(e, ast.Call) and unparse(e.func) in sanitisers:
+        return False
+    if isinstance(e, ast.Name):
+        return e.id in tainted
+    if isinstance(e, (ast.ListComp, ast.SetComp, ast.GeneratorExp, ast.DictComp)):
+        # comprehension variables bound from tainted iterables
+        local = set(tainted)
+        for g in e.generators:
+            if expr_tainted(g.iter, local, sanitisers):
+                for x in ast.walk(g.target):
+                    if isinstance(x, ast.Name):
+                        local.add(x.id)
+            else:
+                for x in ast.walk(g.target):
+                    if isinstance(x, ast.Name):
+                        local.discard(x.id)
+        elts = [e.elt] if not isinstance(e, ast.DictComp) else [e.key, e.value]
+        return any(expr_tainted(x, local, sanitisers) for x in elts)
+    return any(expr_tainted(c, tainted, sanitisers) for c in ast.iter_child_nodes(e))
+
+
+# --------------------------------------------------------------------------- boolean expressions
+def bool_expr_bf(test: ast.AST, classify: T.Callable[[ast.AST], T.Tuple[str, bool]]):
+    """Boolean structure of `test` as a BF over atoms named by classify(leaf) -> (atom, polarity)."""
+    from .boolfn import BF
+    if isinstance(test, ast.BoolOp):
+        parts = [bool_expr_bf(v, classify) for v in test.values]
+        out = parts[0]
+        for p in parts[1:]:
+            out = (out & p) if isinstance(test.op, ast.And) else (out | p)
+        return out
+    if isinstance(test, ast.UnaryOp) and isinstance(test.op, ast.Not):
+        return ~bool_expr_bf(test.operand, classify)
+    if isinstance(test, ast.Constant):
+        return BF.true() if test.value else BF.false()
+    atom, pol = classify(test)
+    v = BF.var(atom)
+    return v if pol else ~v
